@@ -602,6 +602,21 @@ def controller_cases(seed=0, rounds=60):
     rng = random.Random(seed + 7)
     bad = []
     n = 0
+    # exhaustive range check of set_index on small sizes
+    for size in range(1, 5):
+        for i in range(-2, size + 3):
+            n += 1
+            c = Controller('c', [f's{k}' for k in range(size)])
+            try:
+                c.set_index(i)
+                raised = False
+            except BiogemeError:
+                raised = True
+            if raised != (not 0 <= i < size) or (not raised and c.current_index != i) or (raised and c.current_index != 0):
+                bad.append({'clause': 'set_index raises BiogemeError iff the index is out of range', 'size': size, 'index': i,
+                            'raised': raised, 'current': c.current_index})
+    if bad:
+        return n, bad
     for r in range(rounds):
         size = 1 + r % 4
         c = Controller('c', [f's{i}' for i in range(size)])
